@@ -135,6 +135,36 @@ class Controller:
         self.msgs = msgs
         self.plan_done = None
         self.calls = []
+        # observations through the public hooks (msg_hook, state_hook)
+        self.section_nr = False        # statement's non-resumable section: after clear_checkpoint, before the next checkpoint
+        self.doomed = None             # an interruption took effect inside it
+        self.doomed_bad = []
+        self.seen_msgs = set()
+        self.trace = []                # ('msg', command, replayed?) / ('state', new) / ('yield', choice, deferred flag)
+        self.results = {}              # id(msg) -> responses / errors the handlers produced for it
+        self.errors = {}
+        self.nresp = 0
+
+    def on_msg(self, msg):
+        replayed = id(msg) in self.seen_msgs
+        self.seen_msgs.add(id(msg))
+        self.keep = getattr(self, "keep", [])
+        self.keep.append(msg)
+        self.trace.append(("msg", msg.command, replayed))
+        if msg.command == "clear_checkpoint":
+            self.section_nr = True
+        elif msg.command == "checkpoint":
+            self.section_nr = False
+
+    def on_state(self, new, old):
+        new = str(new)
+        self.trace.append(("state", new))
+        if new in ("pausing", "suspending") and self.section_nr and self.doomed is None:
+            self.doomed = new
+        if new == "aborting" and self.section_nr and self.doomed is None and isinstance(self.RE._exception, FailedPause):
+            self.doomed = "suspending"
+        if new == "paused" and self.doomed:
+            self.doomed_bad.append(f"the engine reached 'paused' although the {self.doomed} took effect in a non-resumable section")
 
     # ---------------------------------------------------------------- decisions
     def next_decision(self, kinds):
@@ -225,7 +255,7 @@ class Controller:
             return True
         for f in self.devfuts:
             if not f.done():
-                self.loop.call_soon_threadsafe(lambda f=f: None if f.done() else f.set_result("resp"))
+                self.loop.call_soon_threadsafe(lambda f=f: None if f.done() else f.set_result(self._resp(f.msg)))
                 return True
         return self.loop.fire_timer()
 
@@ -260,9 +290,9 @@ class Controller:
                 if not f.done() and not getattr(f, "fired", False):
                     f.fired = True
                     if kind == "dev-ok":
-                        loop.call_soon_threadsafe(lambda f=f: None if f.done() else f.set_result("resp"))
+                        loop.call_soon_threadsafe(lambda f=f: None if f.done() else f.set_result(self._resp(f.msg)))
                     else:
-                        loop.call_soon_threadsafe(lambda f=f: None if f.done() else f.set_exception(ValueError("device error")))
+                        loop.call_soon_threadsafe(lambda f=f: None if f.done() else f.set_exception(self._err(f.msg)))
                     break
         elif kind == "timer":
             loop.fire_timer()
@@ -299,27 +329,47 @@ class Controller:
                     self.plan_exc = RuntimeError("plan error")
                     raise self.plan_exc
                 m = MESSAGES[choice]()
+                self.trace.append(("yield", choice, bool(self.RE.deferred_pause_requested)))
+                if self.doomed and not getattr(self, "cleanup_entered", False):
+                    self.doomed_bad.append(f"the plan went on to yield {choice!r} after the {self.doomed} took effect in a non-resumable section")
                 try:
                     resp = yield m
+                    own = any(resp is r for r in self.results.get(id(m), []))
                     self.log.append(("plan-send", choice, repr(resp)[:60]))
+                    self.trace.append(("send", choice, own, resp is None, bool(self.errors.get(id(m)))))
                 except GeneratorExit:
+                    self.cleanup_entered = True
                     raise
                 except BaseException as e:     # noqa
+                    self.cleanup_entered = True
                     self.log.append(("plan-throw", choice, type(e).__name__))
+                    self.trace.append(("throw", choice, type(e).__name__, any(e is x for x in self.errors.get(id(m), []))))
                     thrown = e
         finally:
             if self.plan_done is None:
                 self.plan_done = "raised" if thrown is not None else "closed"
                 self.plan_exc = thrown
 
+    def _resp(self, msg):
+        self.nresp += 1
+        r = f"resp{self.nresp}"
+        self.results.setdefault(id(msg), []).append(r)
+        return r
+
+    def _err(self, msg):
+        e = ValueError("device error")
+        self.errors.setdefault(id(msg), []).append(e)
+        return e
+
     async def custom(self, msg):
         d = self.next_decision(["custom outcome"])
         if d is None or d[1] == "ok":
-            return "resp"
-        raise ValueError("device error")
+            return self._resp(msg)
+        raise self._err(msg)
 
     async def custom_async(self, msg):
         f = self.loop.create_future()
+        f.msg = msg
         self.devfuts.append(f)
         return await f
 
@@ -362,6 +412,8 @@ def run_native(decisions, msgs):
         RE.register_command("custom", ctl.custom)
         RE.register_command("custom_async", ctl.custom_async)
         RE.subscribe(lambda name, doc: docs.append((name, dict(doc))))
+        RE.msg_hook = ctl.on_msg
+        RE.state_hook = ctl.on_state
         ctl.RE = RE
         return RE
     ctl.submit(construct)
@@ -374,7 +426,10 @@ def run_native(decisions, msgs):
         open_runs = [k for k, b in RE._run_bundlers.items() if b.run_is_open]
         out["calls"].append({"call": name, "outcome": r[0], "exc": r[1] if r[0] == "raise" else None, "value": r[1] if r[0] == "ok" else None,
                              "state": str(RE.state), "resumable": RE._msg_cache is not None, "open_runs": len(open_runs), "plan": ctl.plan_done,
-                             "interrupted": RE._interrupted})
+                             "interrupted": RE._interrupted, "deferred": bool(RE.deferred_pause_requested), "doomed": ctl.doomed,
+                             "trace_len": len(ctl.trace), "uids": list(RE._run_start_uids)})
+        if str(RE.state) == "idle":
+            ctl.doomed = None
     plan = ctl.plan()
     ctl.submit(lambda: RE(plan))
     r = ctl.schedule()
@@ -388,6 +443,8 @@ def run_native(decisions, msgs):
         r = ctl.schedule()
         record(name, r)
     out["diverged"] = ctl.diverged
+    out["trace"] = ctl.trace
+    out["doomed_bad"] = ctl.doomed_bad
     out["log"] = ctl.log
     out["plan_exc"] = getattr(ctl, "plan_exc", None)
     out["loop_errors"] = [str(c.get("exception")) for c in ctl.loop.errors]
@@ -417,12 +474,80 @@ def _violations(obligation, res):
             if c["call"] in ("__call__", "resume") and c["outcome"] == "raise" and isinstance(c["exc"], RunEngineInterrupted):
                 terminated = any(k in ("abort", "stop", "halt") for _, k, *_ in [x for x in res["log"] if x[0] == "request"]) or \
                     any(x["call"] in ("abort", "stop", "halt") for x in res["calls"])
-                if not ((st == "paused" and c["resumable"]) or (st == "idle" and c["open_runs"] == 0 and (terminated or res.get("failed_pause")))):
+                if not ((st == "paused" and c["resumable"]) or (st == "idle" and c["open_runs"] == 0 and (terminated or c.get("doomed")))):
                     bad.append(f"{c['call']} raised RunEngineInterrupted with state {st!r}, resumable={c['resumable']}, plan {c['plan']}, "
                                f"terminated={terminated}")
         elif tag.startswith("ensures[returns normally only when"):
             if c["call"] in ("__call__", "resume") and c["outcome"] == "ok" and not (st == "idle" and c["plan"] == "returned"):
                 bad.append(f"{c['call']} returned normally with state {st!r}, plan {c['plan']}")
+    tr = res.get("trace", [])
+    quiet = not any(x[0] == "request" and x[1] not in ("pause_defer",) for x in res["log"]) and \
+        not any(c["call"] in ("abort", "stop", "halt") for c in res["calls"])
+    if tag.startswith("ensures[the value sent into the plan at a yield"):
+        for x in tr:
+            if x[0] == "send":
+                _, choice, own, is_none, _err = x
+                if choice in ("custom", "custom_async") and not own:
+                    bad.append(f"the plan received a value that no handler produced for its {choice!r} message (None: {is_none})")
+                if choice in ("checkpoint", "clear_checkpoint", "null", "pause", "pause_defer", "sleep", "rewindable_off", "rewindable_on") and not is_none \
+                        and not choice.startswith("rewindable"):
+                    bad.append(f"the plan received a non-None response for {choice!r}")
+    elif tag.startswith("ensures[a device error is thrown into the plan at the yield"):
+        for x in tr:
+            if x[0] == "send" and x[4]:
+                bad.append(f"the handler of a {x[1]!r} message raised, but the plan received a normal response at that yield")
+    elif tag.startswith("ensures[returns the uids of the runs it opened") or tag.startswith("ensures[the result carries"):
+        starts = [d[1]["uid"] for d in res["docs"] if d[0] == "start"]
+        for c in res["calls"]:
+            if c["outcome"] == "ok" and c["state"] == "idle":
+                v = c["value"]
+                uids = list(getattr(v, "run_start_uids", v))
+                if uids != starts:
+                    bad.append(f"{c['call']} returned run uids {uids} but the runs opened were {starts}")
+    elif tag.startswith("ensures[with a deferred pause pending the engine pauses at the checkpoint"):
+        due = False
+        for x in tr:
+            if x[0] == "state" and x[1] == "paused":
+                due = False
+            if x[0] == "msg" and due and quiet:
+                bad.append(f"message {x[1]!r} was executed after a checkpoint with a deferred pause pending, before the engine paused")
+                due = False
+            if x[0] == "yield" and x[1] == "checkpoint" and x[2]:
+                due = True
+    elif tag.startswith("ensures[resuming from a deferred pause replays nothing"):
+        due = from_deferred = False
+        for x in tr:
+            if x[0] == "yield" and x[1] == "checkpoint" and x[2]:
+                due = True
+            if x[0] == "state" and x[1] == "paused":
+                from_deferred, due = due, False
+            if x[0] == "state" and x[1] == "running" and from_deferred:
+                from_deferred = "resumed"
+            if x[0] == "msg" and from_deferred == "resumed":
+                if x[2]:
+                    bad.append(f"message {x[1]!r} was replayed after resuming from a deferred pause")
+                from_deferred = False
+    elif tag.startswith("ensures[a deferred request with no later checkpoint stays pending"):
+        pending = False
+        for x in tr:
+            if x[0] == "yield" and x[2]:
+                pending = True
+            if x[0] == "state" and x[1] == "pausing":
+                pending = False
+        for c in res["calls"]:
+            if c["call"] in ("__call__", "resume") and c["outcome"] == "ok" and c["state"] == "idle" and pending and quiet and not c["deferred"]:
+                bad.append("the plan completed with a deferred pause pending, but deferred_pause_requested reads False afterwards")
+    elif "no checkpoint in effect never leaves the engine paused" in tag or "no further plan message is executed before the plan's cleanup" in tag:
+        bad.extend(b for b in res.get("doomed_bad", []) if ("reached 'paused'" in b) == ("never leaves the engine paused" in tag))
+    elif tag.startswith("ensures[the call ends idle with every run closed and the plan's cleanup code entered"):
+        for c in res["calls"]:
+            if c["call"] in ("__call__", "resume") and c.get("doomed") and not (c["state"] == "idle" and c["open_runs"] == 0):
+                bad.append(f"{c['call']} ended with state {c['state']!r} and {c['open_runs']} open runs after a {c['doomed']} in a non-resumable section")
+    elif tag.startswith("raises[the interruption is reported: RunEngineInterrupted"):
+        for c in res["calls"]:
+            if c["call"] in ("__call__", "resume") and c.get("doomed") and c["state"] == "idle" and not (
+                    c["outcome"] == "raise" and isinstance(c["exc"], (RunEngineInterrupted, RuntimeError, ValueError))):
+                bad.append(f"{c['call']} -> {c['outcome']} although a {c['doomed']} took effect in a non-resumable section")
     return bad
 
 
